@@ -525,7 +525,7 @@ class DnsRecordTxtValueSpfDirectiveBase(ParsableBase, Serializable):
     @classmethod
     def _parse_ip_network(cls, parser):
         parser.parse_string('separator', ':')
-        parser.parse_string_until_separator_or_end('ip_network', ' ')
+        parser.parse_string_until_separator_or_end('ip_network', ' ', item_class=ipaddress.ip_network)
 
         return parser['ip_network']
 
@@ -769,10 +769,13 @@ class DnsRecordTxtValueSpfDirectiveIp4(DnsRecordTxtValueSpfDirectiveBase):
         qualifier = parser.get('qualifier', None)
         ipv4_network = cls._parse_ip_network(parser)
 
-        return cls(
-            qualifier=qualifier,
-            ipv4_network=ipv4_network,
-        ), parser.parsed_length
+        try:
+            return cls(
+                qualifier=qualifier,
+                ipv4_network=ipv4_network,
+            ), parser.parsed_length
+        except TypeError as e:
+            six.raise_from(InvalidValue(ipv4_network, cls, 'ipv4_network'), e)
 
     def compose(self):
         composer = self._compose_qualifier_and_mechanism_name(self.qualifier)
@@ -804,10 +807,13 @@ class DnsRecordTxtValueSpfDirectiveIp6(DnsRecordTxtValueSpfDirectiveBase):
         qualifier = parser.get('qualifier', None)
         ipv6_network = cls._parse_ip_network(parser)
 
-        return cls(
-            qualifier=qualifier,
-            ipv6_network=ipv6_network,
-        ), parser.parsed_length
+        try:
+            return cls(
+                qualifier=qualifier,
+                ipv6_network=ipv6_network,
+            ), parser.parsed_length
+        except TypeError as e:
+            six.raise_from(InvalidValue(ipv6_network, cls, 'ipv6_network'), e)
 
     def compose(self):
         composer = self._compose_qualifier_and_mechanism_name(self.qualifier)
